@@ -556,6 +556,11 @@ class Exec:
                 v = s.ev(st, e.args[0])
                 if v.ty.kind not in ('ref', 'list', 'dict'): raise Unsupported('id() of a value')
                 return SV(v.t, INT)          # id(x): the reference itself (injective on live objects)
+            if n == 'cast' and len(e.args) == 2 and 'cast' not in s.p.funcs:
+                v = s.ev(st, e.args[1])
+                try: ty_ = parse_ann(e.args[0], s.p.tv)
+                except Exception: ty_ = None
+                return SV(v.t, ty_) if (ty_ is not None and ty_.kind == 'ref' and v.ty.kind in ('ref', 'none')) else v
             if n in ('min', 'max') and len(e.args) == 2:
                 a_, b_ = s.ev(st, e.args[0]), s.ev(st, e.args[1])
                 if a_.ty == INT and b_.ty == INT: return SV(If(a_.t <= b_.t, a_.t, b_.t) if n == 'min' else If(a_.t >= b_.t, a_.t, b_.t), INT)
@@ -887,7 +892,11 @@ class Exec:
         rty = parse_ann(fdef.returns, dict(s.p.tv, Self=self_cls)) if fdef.returns is not None else NONE
         if c is not None and q != s.cur:
             r_ = s.call_contract(st, q, c, env, rty)
-            for names_ in ((getattr(curc, 'after_call', {}) or {}).get(q, []) if curc is not None else []):      # ghost names for the result (and the arguments) of a nested call
+            lists_ = ((getattr(curc, 'after_call', {}) or {}).get(q, []) if curc is not None else [])
+            if lists_:      # ghost names for the result (and the arguments) of a nested call; the k-th after_call clause names the k-th call on the path (the last one any further call)
+                n_ = st.env.get('$ncall_' + q, 0); st.env = dict(st.env); st.env['$ncall_' + q] = n_ + 1
+                lists_ = [lists_[min(n_, len(lists_) - 1)]]
+            for names_ in lists_:
                 st.env[names_[0]] = r_
                 for nm_, pn_ in zip(names_[1:], [a_.arg for a_ in fdef.args.args]):
                     if pn_ in env and isinstance(env[pn_], SV): st.env[nm_] = env[pn_]
